@@ -22,7 +22,7 @@ PROPERTY_PROFILES = {
     'C06': [('wiring', 1.0)],
     'C07': [('wiring', 0.6), ('struct', 0.4)],
     'C08': [('wiring', 1.0)],
-    'C15': [('wiring', 1.0)],
+    'C15': [('wiring', 0.8), ('struct', 0.2)],
     'C09': [('struct', 1.0)],
     'C10': [('struct', 1.0)],
     'C11': [('struct', 1.0)],
